@@ -757,7 +757,14 @@ func genMotif(r *rand.Rand, m int, in *kvInput, exists map[string]bool, hot []st
 			case 0:
 				kvn(&KOp{Kind: "Update", Exp: genExp(r), Cb: &Callback{Kind: pick(r, []string{"set", "append", "delete"}), Val: sp(pick(r, jsonBodies))}}, nested)
 			case 1:
-				kvn(&KOp{Kind: "WriteUpdateWithXattrs", Cb: &Callback{Kind: "result", Val: sp(pick(r, jsonBodies)), Xs: genXs(r, false)}}, toucher())
+				wn := toucher()
+				switch r.Intn(3) {
+				case 0:
+					wn = &KOp{Kind: "SetXattrs", Xs: genXs(r, false)}
+				case 1:
+					wn = &KOp{Kind: "DeleteSubDocPaths", Names: []string{pick(r, kvXnames)}}
+				}
+				kvn(&KOp{Kind: "WriteUpdateWithXattrs", Cb: &Callback{Kind: "result", Val: sp(pick(r, jsonBodies)), Xs: genXs(r, false)}}, wn)
 			case 2, 4:
 				kvn(&KOp{Kind: "WriteSubDoc", Path: pick(r, subdocPaths), CasMode: pick(r, []string{"zero", "zero", "zero", "current"}), Val: sp(pick(r, subdocVals[:3]))}, nested)
 			default:
